@@ -105,7 +105,7 @@ impl Property for C15 {
             .boxed()
     }
     fn quota(tier: Tier) -> u64 {
-        tier.pick(400_000, 8_000_000)
+        tier.pick(4_000_000, 60_000_000)
     }
     fn rule() -> String {
         "Lines and line strings with 0-12 vertices (lattice walks with repeated vertices and zero-length segments, strictly \
